@@ -416,11 +416,11 @@ var solexaPhredTable = func() [256]Qphred {
 	t := [256]Qphred{0: 255, 255: 0}
 	for q := range t[1:255] {
 		qs := q - 127
-		Q := Qphred(10*math.Log10(math.Pow(10, float64(qs)/10)) + 0.5)
+		Q := 10*math.Log10(math.Pow(10, float64(qs)/10)+1) + 0.5
 		if Q > 254 {
 			Q = 254
 		}
-		t[q+1] = Q
+		t[q+1] = Qphred(Q)
 	}
 	return t
 }()
